@@ -271,10 +271,11 @@ public:
    */
   void setFather(const std::shared_ptr<N>  nodeObject, const std::shared_ptr<N> fatherNodeObject, const std::shared_ptr<E> edgeObject = 0)
   {
+    if (edgeObject && this->hasEdge(edgeObject))
+      throw Exception("AssociationTreeGraphImplObserver::setFather: the given edge is already associated to a relation: " + this->edgeToString(edgeObject));
+    this->getGraph()->setFather(this->getNodeGraphid(nodeObject), this->getNodeGraphid(fatherNodeObject));
     if (edgeObject)
-      this->getGraph()->setFather(this->getNodeGraphid(nodeObject), this->getNodeGraphid(fatherNodeObject), this->getEdgeGraphid(edgeObject));
-    else
-      this->getGraph()->setFather(this->getNodeGraphid(nodeObject), this->getNodeGraphid(fatherNodeObject));
+      this->setEdgeLinking(fatherNodeObject, nodeObject, edgeObject);
   }
 
 
@@ -287,10 +288,11 @@ public:
    */
   void addSon(const std::shared_ptr<N>  nodeObject, const std::shared_ptr<N> sonNodeObject, const std::shared_ptr<E> edgeObject = 0)
   {
+    if (edgeObject && this->hasEdge(edgeObject))
+      throw Exception("AssociationTreeGraphImplObserver::addSon: the given edge is already associated to a relation: " + this->edgeToString(edgeObject));
+    this->getGraph()->addSon(this->getNodeGraphid(nodeObject), this->getNodeGraphid(sonNodeObject));
     if (edgeObject)
-      this->getGraph()->addSon(this->getNodeGraphid(nodeObject), this->getNodeGraphid(sonNodeObject), this->getEdgeGraphid(edgeObject));
-    else
-      this->getGraph()->addSon(this->getNodeGraphid(nodeObject), this->getNodeGraphid(sonNodeObject));
+      this->setEdgeLinking(nodeObject, sonNodeObject, edgeObject);
   }
 
   /**
